@@ -322,7 +322,7 @@ func c12R2(h H, dm *DirMap) {
 					if cc, ok := g.Cond.(*ssa.Call); ok && strings.HasSuffix(calleeName(&cc.Call), "ResponseBuffer).Buffered") && g.Pos {
 						uncommitted = true
 					}
-					if cc, ok := g.Cond.(*ssa.Call); ok && strings.HasSuffix(calleeName(&cc.Call), "internalsrv.isInternalRedirect") && g.Pos {
+					if g.Pos && headerPending(g.Cond, 0) {
 						uncommitted = true // internal's writer drops everything while the redirect header is set
 					}
 				}
@@ -500,4 +500,66 @@ func c12R4(h H) {
 		r.Check(!bad, "R4", shortType(spec[1])+".WriteHeader/sets-flag", wh.Pos(), "whenever WriteHeader commits, the writer remembers it")
 	}
 	_ = token.NoPos
+}
+
+
+// headerPending: v is a boolean that can be true only when a response header read with Header.Get is non-empty — the
+// test itself, or the result of module functions (methods, bound method values) all of whose returns are such tests.
+func headerPending(v ssa.Value, depth int) bool {
+	if depth > 4 || v == nil {
+		return false
+	}
+	viaReturns := func(c *ssa.Call, idx int, pred func(ssa.Value, int) bool) bool {
+		f := c.Call.StaticCallee()
+		if f == nil || len(f.Blocks) == 0 || f.Pkg == nil && f.Parent() == nil && f.Synthetic == "" {
+			return false
+		}
+		rets := realReturns(f)
+		if len(rets) == 0 {
+			return false
+		}
+		for _, rt := range rets {
+			res := retResults(rt)
+			if idx >= len(res) || !pred(res[idx], depth+1) {
+				return false
+			}
+		}
+		return true
+	}
+	var headerValue func(v ssa.Value, depth int) bool
+	headerValue = func(v ssa.Value, depth int) bool {
+		if depth > 4 {
+			return false
+		}
+		switch t := v.(type) {
+		case *ssa.Call:
+			if calleeName(&t.Call) == "(net/http.Header).Get" {
+				return true
+			}
+			return viaReturns(t, 0, headerValue)
+		case *ssa.Extract:
+			if c, ok := t.Tuple.(*ssa.Call); ok {
+				return viaReturns(c, t.Index, headerValue)
+			}
+		}
+		return false
+	}
+	switch t := v.(type) {
+	case *ssa.BinOp:
+		if t.Op == token.NEQ {
+			if s, ok := constString(t.Y); ok && s == "" {
+				return headerValue(t.X, depth)
+			}
+			if s, ok := constString(t.X); ok && s == "" {
+				return headerValue(t.Y, depth)
+			}
+		}
+	case *ssa.Call:
+		return viaReturns(t, 0, headerPending)
+	case *ssa.Extract:
+		if c, ok := t.Tuple.(*ssa.Call); ok {
+			return viaReturns(c, t.Index, headerPending)
+		}
+	}
+	return false
 }
